@@ -36,7 +36,7 @@ type WorkerResult struct {
 	States        []uint64       `json:"states"`
 	Faults        map[string]int `json:"faults"`
 	Probes        map[string]int `json:"probes"`
-	SimTimeNs     int64          `json:"sim_time_ns"`
+	SimTimeS      float64        `json:"sim_time_s"`
 	Steps         int64          `json:"steps"`
 	Inconclusive  int            `json:"inconclusive"`
 	Samples       []any          `json:"samples"`
@@ -233,7 +233,7 @@ func WorkerMain(t *testing.T) {
 		for k, v := range o.Probes {
 			res.Probes[k] += v
 		}
-		res.SimTimeNs += int64(o.SimTime)
+		res.SimTimeS += o.SimTime.Seconds()
 		res.Steps += int64(o.Steps)
 		if o.Inconclusive {
 			res.Inconclusive++
